@@ -66,6 +66,7 @@ def run(rep, work, tier, seed, only=None):
             continue
         good.append(rec)
     toric2d_tie(rep, work, good)
+    cc.report_cross_class(rep, outdir, ('n', 'k', 'H', 'logicals', 'exception'))
     groups = cc.batch(good, cc.est_cost, 6.0)
     log('[C01] %d instances in %d files' % (len(good), len(groups)))
     res = cc.run_obligation_files(work, 'c01', groups, body)
